@@ -496,6 +496,48 @@ func runC06(c *Ctx) {
 		}
 	}
 
+	// ---- 0b. Array / Map offsets with a decrease in the MIDDLE that stays at or below the final offset ([2,1,2], [3,0,3],
+	// [1,0,0,1]…): every total is plausible, the rows overlap or run backwards
+	{
+		le := func(vs ...uint64) []byte {
+			var b []byte
+			for _, v := range vs {
+				b = binary.LittleEndian.AppendUint64(b, v)
+			}
+			return b
+		}
+		str := func(n int) []byte {
+			var b []byte
+			for i := 0; i < n; i++ {
+				b = append(b, 1, byte('a'+i))
+			}
+			return b
+		}
+		for _, offs := range [][]uint64{{2, 1, 2}, {3, 0, 3}, {1, 0, 0, 1}, {5, 4, 5}, {2, 2, 1, 2}, {4, 3, 2, 1, 4}} {
+			total := int(offs[len(offs)-1])
+			for _, shape := range []string{"Array(UInt8)", "Array(String)", "Map(String, String)", "Array(Nullable(UInt8))"} {
+				wire := le(offs...)
+				switch shape {
+				case "Array(UInt8)":
+					wire = append(wire, make([]byte, total)...)
+				case "Array(String)":
+					wire = append(wire, str(total)...)
+				case "Map(String, String)":
+					wire = append(append(wire, str(total)...), str(total)...)
+				case "Array(Nullable(UInt8))":
+					wire = append(append(wire, make([]byte, total)...), make([]byte, total)...)
+				}
+				cs := map[string]any{"kind": "col", "type": shape, "rows": len(offs), "offsets": fmt.Sprint(offs), "hex": truncHex(wire)}
+				run(&c06Req{Kind: "col", Type: shape, Rows: len(offs), Hex: hx(wire)}, cs, "")
+				R.Case("offsets-interior|"+shape+"|"+fmt.Sprint(offs), true)
+				R.Count("shape:offsets-interior-decrease")
+				if imp, _ := cs["impl"].(string); imp == "ok" {
+					R.Violate(Violation{Kind: "oracle", Key: "offsets-not-monotonic-row-panics", What: fmt.Sprintf("a %s column with the offsets %v decoded without an error (rows overlap / run backwards)", shape, offs), Case: cs})
+				}
+			}
+		}
+	}
+
 	// ---- 1. targeted field mutations on single columns
 	n := 120
 	if c.Thorough {
